@@ -485,6 +485,32 @@ func (env *Env) evalCall(x *ECall) Term {
 			return env.fail("%v", err)
 		}
 		return mkInt(int64(fv.eng.tid(gt)))
+	case "fadd", "fsub", "fmul", "fdiv":
+		a, b := env.Eval(x.Args[0]), env.Eval(x.Args[1])
+		fv.decls.Add(1, "pv_"+x.Fn, fmt.Sprintf("(declare-fun pv_%s (pv_F64 pv_F64) pv_F64)", x.Fn))
+		return Term{S: fmt.Sprintf("(pv_%s %s %s)", x.Fn, a.S, b.S), Sort: SF64, T: types.Typ[types.Float64]}
+	case "flt", "feq":
+		a, b := env.Eval(x.Args[0]), env.Eval(x.Args[1])
+		fv.decls.Add(1, "pv_flt", "(declare-fun pv_flt (pv_F64 pv_F64) Bool)\n(declare-fun pv_feq (pv_F64 pv_F64) Bool)")
+		return Term{S: fmt.Sprintf("(pv_%s %s %s)", x.Fn, a.S, b.S), Sort: SBool, T: types.Typ[types.Bool]}
+	case "f64":
+		s, ok := x.Args[0].(*EStr)
+		if !ok {
+			return env.fail("f64 needs a string literal")
+		}
+		return fv.floatConst(s.V, types.Typ[types.Float64])
+	case "strlt":
+		a, b := env.Eval(x.Args[0]), env.Eval(x.Args[1])
+		fv.decls.Add(1, "pv_strlt", "(declare-fun pv_strlt (pv_Str pv_Str) Bool)\n(assert (forall ((a pv_Str)) (! (not (pv_strlt a a)) :pattern ((pv_strlt a a)))))")
+		return Term{S: fmt.Sprintf("(pv_strlt %s %s)", a.S, b.S), Sort: SBool, T: types.Typ[types.Bool]}
+	case "kindof":
+		a := env.Eval(x.Args[0])
+		fv.kindUsed = true
+		fv.decls.Add(1, "pv_kind", "(declare-fun pv_kind (Int) Int)\n(declare-fun pv_telem (Int) Int)\n(declare-fun pv_tkey (Int) Int)\n(assert (= (pv_kind 0) 0))")
+		return Term{S: "(pv_kind " + a.S + ")", Sort: SInt, T: types.Typ[types.Int]}
+	case "pay":
+		a := env.Eval(x.Args[0])
+		return Term{S: "(pv_pay " + a.S + ")", Sort: SInt, T: types.Typ[types.Int]}
 	case "isnil":
 		a := env.Eval(x.Args[0])
 		if a.Sort == SVal {
@@ -494,7 +520,16 @@ func (env *Env) evalCall(x *ECall) Term {
 	case "box":
 		a := env.Eval(x.Args[0])
 		if a.T == nil {
-			return env.fail("box of untyped term")
+			switch a.Sort {
+			case SBool:
+				a.T = types.Typ[types.Bool]
+			case SInt:
+				a.T = types.Typ[types.Int]
+			case SStr:
+				a.T = types.Typ[types.String]
+			default:
+				return env.fail("box of untyped term")
+			}
 		}
 		return fv.box(a, a.T)
 	case "unbox":
